@@ -1750,6 +1750,20 @@ def check_C10(ctx):
             vs.append((f"sock:{','.join(map(str, lens))}{rng.choice(['', '!'])}",) + cfg)
         streams.append(s)
         variants_of[s] = vs
+    # long connections: tens of kilobytes through one wrapper (a buffer that is compacted, an offset that is kept,
+    # a counter that wraps would only show after many reads)
+    for _ in range(ctx.n(4, 24)):
+        s = b""
+        want = rng.choice([17000, 24000, 40000, 70000])
+        while len(s) < want:
+            s += clean_stream(ctx, corrupt_p=0.05)[1]
+        cfg = (rng.choice([0, 1]), 7, 1, rng.choice([0, 3]), rng.choice([0, 1]), 1)
+        vs = [("file",) + cfg]
+        for maxc in (64, 1500, 5000):
+            lens = rand_chunks(rng, len(s), maxc + 1)
+            vs.append((f"sock:{','.join(map(str, lens))}{rng.choice(['', '!'])}",) + cfg)
+        streams.append(s)
+        variants_of[s] = vs
     lines, meta = readp_lines(ctx, streams, lambda s: variants_of[s])
     py = do_corr(res, lines)
     ref = {}
@@ -1795,8 +1809,11 @@ def check_C10(ctx):
     # real TCP-style delivery from a concurrent sender thread (outside the model; labelled as such)
     import socket as sk
     nreal = ctx.n(12, 150)
-    for _ in range(nreal):
+    for k in range(nreal):
         s = clean_stream(ctx, corrupt_p=0.1)[1]
+        if k % 4 == 3:      # a long connection
+            while len(s) < 20000 + 10000 * (k % 5):
+                s += clean_stream(ctx, corrupt_p=0.05)[1]
         a, b = sk.socketpair()
         a = canon.GuardSock(a)
         # the stream always ends by the sender closing its side: a time-out ending would make the outcome depend on how
@@ -1808,7 +1825,7 @@ def check_C10(ctx):
             pos = 0
             r = random.Random(len(data))
             while pos < len(data):
-                n = r.randrange(1, 40)
+                n = r.randrange(1, 40) if len(data) < 5000 else r.randrange(1, 1500)
                 sock.sendall(data[pos:pos + n])
                 pos += n
                 if r.random() < 0.2:
